@@ -91,15 +91,23 @@ def items(tier: str, seed: int) -> list[tuple[Any, ...]]:
         sts = _state_items(cfg, m)
         for st, hist in sts:
             out.append(("full", cfg, _ser(st), hist))
-        # switch subsets: every state of the hand-built models, of the first seeds and of the parameter grid;
-        # thorough: every state of every model
-        if tier == "thorough" or cfg["kind"] == "hand" or cfg["name"] == "default/0":
-            chosen = sts
+        # switch subsets.  All 512 on the hand-built models (quick: states at history depth <= 2 / one per session),
+        # all subsets with at most two switches off plus all-off on one state per session of every random model;
+        # thorough: all 512 in every state of every model.
+        if tier == "thorough":
+            for st, hist in sts:
+                for k in range(SUBSET_SLICES):
+                    subs.append(("subsets", cfg, _ser(st), hist, k))
+        elif cfg["kind"] == "hand":
+            depth = 2 if cfg["name"] == "three" else 1
+            for st, hist in sts:
+                if len(hist) <= depth and (cfg["name"] == "three" or st[2] is None):
+                    for k in range(SUBSET_SLICES):
+                        subs.append(("subsets", cfg, _ser(st), hist, k))
         else:
-            chosen = [x for x in sts if x[0][1] is None and x[0][2] is None]  # one per session
-        for st, hist in chosen:
-            for k in range(SUBSET_SLICES):
-                subs.append(("subsets", cfg, _ser(st), hist, k))
+            for st, hist in sts:
+                if st[1] is None and st[2] is None:
+                    subs.append(("subsets", cfg, _ser(st), hist, "pairs"))
     return out + subs
 
 
@@ -155,7 +163,7 @@ class Judge:
         self.cfg = cfg
         self.m = m
         self.hist = hist
-        self.handler_seen: dict[Any, bytes] = {}
+        self.handler_seen: dict[Any, tuple[bytes, bool]] = {}
         self.parse_disagree: set[bytes] = set()
 
     def rp(self, q: bytes, mask: int, **kw: Any) -> dict[str, Any]:
@@ -253,13 +261,24 @@ class Judge:
             # differential: the handler's answer does not depend on the switches
             norm = h if h is not None else bytes([0x7F, sid, ref.NRC_GR])
             hk = (pre, (rp_extra or {}).get("entropy", 0), q)
+            ifmt = bool(mask & ref.IFMT)
             if q in self.parse_disagree:
                 pass  # server and reference disagree on whether q parses (reported above); nothing to compare
             elif hk in self.handler_seen:
-                if self.handler_seen[hk] != norm:
-                    bad(f"C13|differential|handler-answer-depends-on-switches|sid={_sidcat(sid)}", f"handler stage answer {norm.hex()} differs from {self.handler_seen[hk].hex()} seen under another switch set")
+                prev, prev_ifmt = self.handler_seen[hk]
+                if prev != norm:
+                    n13 = bytes([0x7F, sid, ref.NRC_IMLOIF])
+                    if wf and prev_ifmt != ifmt and ((prev_ifmt and prev == n13) or (ifmt and norm == n13)):
+                        # 0x13 exactly when the format rule is on: the server took q for unparsable
+                        self.parse_disagree.add(q)
+                        bad(
+                            f"C13|incorrect_format|wellformed-request-answered-13|sid={_sidcat(sid)}|sub={q[1] & 0x7F if sid in (ref.DDDI, ref.RDTC, ref.RC) and len(q) > 1 else '*'}|suppress-bit={int(ref.suppressible(q))}",
+                            f"well formed request answered incorrectMessageLengthOrInvalidFormat only while default_response_if_incorrect_format is on ({prev.hex()} vs {norm.hex()}): the server could not parse it",
+                        )
+                    else:
+                        bad(f"C13|differential|handler-answer-depends-on-switches|sid={_sidcat(sid)}", f"handler stage answer {norm.hex()} differs from {prev.hex()} seen under another switch set")
             else:
-                self.handler_seen[hk] = norm
+                self.handler_seen[hk] = (norm, ifmt)
         # state
         want_post = ref.after(pre, q, h)
         if post != want_post:
@@ -305,6 +324,7 @@ class Explorer:
             )
         self.snap = self.ecu.snapshot()
         self.explained: dict[Any, list[tuple[int, ...]]] = {}
+        self.cur_mask = ref.ALL
         for f in self.ecu.unknown_state_fields():
             res.uncovered.add(f"state-field:{f}")
 
@@ -325,8 +345,9 @@ class Explorer:
         res.count("transitions")
         res.count("evaluations")
         label = (lambda base: self.label(q, mask, gap, entropy, pre, base)) if explain else None
-        if mask != ref.ALL:
+        if mask != self.cur_mask:
             ecu.set_mask(mask)
+            self.cur_mask = mask
         dirty = True
         try:
             try:
@@ -348,9 +369,11 @@ class Explorer:
                 ecu.restore(self.snap)
                 ecu.set_mask(mask & ~ref.SUPP)
                 res.count("transitions")
-                h = ecu.request(q, gap=gap, entropy=entropy)
+                try:
+                    h = ecu.request(q, gap=gap, entropy=entropy)
+                finally:
+                    ecu.set_mask(mask)
                 post2 = ecu.abstract()
-                ecu.set_mask(mask)
                 if post2 != post:
                     base = f"C13|suppress|state-differs-from-unsuppressed|sid={_sidcat(q[0])}"
                     off = "-" if mask == ref.ALL else (label(base) if label else _off(mask))
@@ -367,8 +390,9 @@ class Explorer:
                 dirty = False  # nothing but the clock moved
             return agreed, sent, post
         finally:
-            if mask != ref.ALL:
-                ecu.set_mask(ref.ALL)
+            if self.cur_mask != mask:  # a nested explanatory run changed it
+                ecu.set_mask(mask)
+                self.cur_mask = mask
             if dirty:
                 ecu.restore(self.snap)
 
@@ -380,25 +404,28 @@ class Explorer:
         for e in self.explained.get(key, []):
             if set(e) <= set(offs):
                 return "+".join(ref.SWITCHES[i] for i in e) or "-"
-        cands: list[tuple[int, ...]] = [()] + [(i,) for i in offs] + [(a, b) for a in offs for b in offs if a < b]
-        for cand in cands:
+
+        def fails(cand: list[int]) -> bool:
             mk = ref.ALL
             for i in cand:
                 mk &= ~(1 << i)
             if mk == mask:
-                continue
+                return True
             tmp = Result()
             self.apply(q, mk, gap, entropy, pre, res=tmp, explain=False)
-            if any(sg.startswith(base + "|off=") for sg in tmp.notes.get("sig_counts", {})):
-                self.explained.setdefault(key, []).append(cand)
-                return "+".join(ref.SWITCHES[i] for i in cand) or "-"
-        if len(offs) <= 2:
-            self.explained.setdefault(key, []).append(tuple(offs))
-            return _off(mask)
-        return f"{len(offs)}-switches"
+            return any(sg.startswith(base + "|off=") for sg in tmp.notes.get("sig_counts", {}))
+
+        # greedy 1-minimal reduction of the set of switched-off behaviours (<= 9 extra runs)
+        cur = list(offs)
+        for i in list(offs):
+            trial = [x for x in cur if x != i]
+            if fails(trial):
+                cur = trial
+        self.explained.setdefault(key, []).append(tuple(cur))
+        return "+".join(ref.SWITCHES[i] for i in cur) or "-"
 
     def alphabet(self) -> list[bytes]:
-        return vc.short_alphabet(self.m) + vc.structured(self.m) + vc.dynamic(self.m, self.pre)
+        return vc.short_alphabet(self.m, vc.wide(self.cfg)) + vc.structured(self.m) + vc.dynamic(self.m, self.pre)
 
     def reduced(self) -> list[bytes]:
         """one representative request per (service category, reference decisions under all-on and every single
@@ -454,9 +481,9 @@ def run_full(res: Result, cfg: dict[str, Any], st: tuple[Any, ...], hist: list[A
         ex.apply(q, gap=10.0)
         ex.apply(q, gap=10.5, pre=ref.INITIAL)
     # re-execution probe: the snapshot/restore shortcut must agree with fresh objects
-    for q in red:
-        if q not in recorded:
-            continue
+    for n, q in enumerate(red):
+        if q not in recorded or (n % 4 and recorded[q][1] == ex.pre):
+            continue  # every 4th request of the reduced alphabet and every one that changed the state
         fresh = vc.Ecu(cfg)
         fresh.play(hist)
         res.count("executions")
@@ -491,13 +518,18 @@ def run_subsets(res: Result, cfg: dict[str, Any], st: tuple[Any, ...], hist: lis
         return
     red = ex.reduced()
     per = 512 // SUBSET_SLICES
+    if k == "pairs":
+        masks = [mk for mk in range(512) if bin(mk ^ ref.ALL).count("1") <= 2] + [0]
+    else:
+        masks = list(range(k * per, (k + 1) * per))
     # the all-on answers first so that the differential has its base line
     for q in red:
         ex.apply(q, ref.ALL & ~ref.SUPP)
-    for mask in range(k * per, (k + 1) * per):
+    for mask in masks:
         for q in red:
             ex.apply(q, mask)
-        res.seen("switch_subsets", mask)
+        if k != "pairs":
+            res.seen("switch_subsets", mask)
     res.notes.setdefault("reduced_alphabet_sizes", {})[f"{cfg['name']}|{_ser(ex.pre)}"] = str(len(red))
 
 
